@@ -16,8 +16,9 @@ import (
 //go:generate go run asm2.go -out search_amd64.s -stubs stub_search_amd64.go
 
 func main() {
-	TEXT("Search", NOSPLIT, "func(xs []uint64, k uint64) int16")
-	Doc("Search finds the first idx for which xs[idx] >= k in xs.")
+	TEXT("search8", NOSPLIT, "func(xs []uint64, k uint64) int16")
+	Doc("search8 finds the first idx for which xs[idx] >= k in xs. It compares four keys per iteration",
+		"without checking them against len(xs), so len(xs) must be a positive multiple of 8.")
 	ptr := Load(Param("xs").Base(), GP64())
 	n := Load(Param("xs").Len(), GP64())
 	key := Load(Param("k"), GP64())
